@@ -136,7 +136,10 @@ CLAIMED = {
     ),
     "C20": (
         "Coq proof over the FINITE state space of a binding wait (one-step invariants decided by kernel computation over all 336 states x 5 events, lifted by induction to every history of instants) + correspondence with the real state classes on a virtual-time loop + two-ended handshake oracle",
-        "6 theorems in coq/props/C20.v about coq/model/M_Bind.v (= BindStateBase._wait_for_fut_result / _handle_wait_timer_expired / "
+        "10 theorems in coq/props/C20.v about coq/model/M_Bind.v (incl. no event sequence leaves an exception in the loop -- repeats "
+        "of the awaited packet within one loop iteration are ignored (fix c876120) -- and BindStateBase.is_phase: a packet belongs to at "
+        "most one phase, so a third party's offer, self-addressed or broadcast, is never taken for the accept or confirm awaited; "
+        "= BindStateBase._wait_for_fut_result / _handle_wait_timer_expired / "
         "_set_context_state, the states' call_later timers, rcvd_msg of the waiting states; the loop abstracted to instants with the "
         "wake-up hop): for EVERY history a wait that ended, ended with the awaited message (context advanced) or BindingFlowFailed "
         "(context DevHasFailedBinding = not binding, a new attempt may start) and nothing else; the wait is over in the instant its "
@@ -144,7 +147,7 @@ CLAIMED = {
         "role-level clauses (both ends report the same offer/accept/confirm under repeats; every attempt bounded; not binding "
         "afterwards; retry works) are decided by the handshake oracle on real BindContexts over a delaying/repeating/losing medium, not "
         "by theorems. Tie: ~100 (thorough 400) single-wait schedules with packets placed around the 5.0/5.1 s timers, both tie "
-        "policies, on the real state classes vs the model (outcome, successor state, loop exceptions).",
+        "policies, on the real state classes vs the model (outcome, successor state, loop exceptions); is_phase on real Commands of every (code, verb, destination kind, phase).",
         "Trusted: Coq kernel, harness (virtual loop, scripted medium routing packets as dispatcher.process_msg does). Modelled not "
         "verified: asyncio wait_for/shield semantics as 'a time-out before the waiter runs yields TimeoutError'; sending abstracted to "
         "echo-after-delay or ProtocolSendFailed; the vendor-specific code lists and the 10E0 ratify step only in the oracle.",
